@@ -66,6 +66,7 @@ func hexHashes(hs []pmtref.Hash) []string {
 // ---------- one execution of the implementation ----------
 type implOut struct {
 	Panic   string
+	Mutated bool // the message (flag bytes, hash values, count) was written to
 	OK      bool
 	Bad     bool
 	Root    pmtref.Hash
@@ -86,11 +87,18 @@ func runImpl(count uint32, hashes []pmtref.Hash, flags []byte) (o implOut) {
 		ptrs[i] = &h
 	}
 	msg := wire.MsgMerkleBlock{Transactions: count, Hashes: ptrs, Flags: flags}
+	before := flagSum(flags)
 	t0 := time.Now()
 	pb := merkleblock.NewMerkleBlockFromMsg(msg)
 	root := pb.ExtractMatches()
 	o.Nanos = time.Since(t0).Nanoseconds()
 	o.Bad = pb.BadTree()
+	o.Mutated = flagSum(flags) != before || msg.Transactions != count || len(msg.Hashes) != len(hashes) || len(msg.Flags) != len(flags)
+	for i := range ptrs {
+		if msg.Hashes[i] != ptrs[i] || pmtref.Hash(*ptrs[i]) != hashes[i] {
+			o.Mutated = true
+		}
+	}
 	if root != nil {
 		o.OK = true
 		o.Root = pmtref.Hash(*root)
@@ -100,6 +108,15 @@ func runImpl(count uint32, hashes []pmtref.Hash, flags []byte) (o implOut) {
 		}
 	}
 	return
+}
+
+// flagSum is a position-sensitive checksum of the flag bytes (taken before and after extraction).
+func flagSum(b []byte) uint64 {
+	h := uint64(1469598103934665603)
+	for _, x := range b {
+		h = (h ^ uint64(x)) * 1099511628211
+	}
+	return h
 }
 
 // slowAgain re-runs an over-budget call three times and reports whether even the fastest run is over
@@ -177,6 +194,9 @@ func monitor(s *sink, count uint32, hashes []pmtref.Hash, flags []byte) (implOut
 		s.violate("C12:panic", "ExtractMatches panicked", rp())
 		return o, r
 	}
+	if o.Mutated {
+		s.violate("C12:input_mutated", "NewMerkleBlockFromMsg/ExtractMatches wrote to the message it was given", rp())
+	}
 	// generous: 2 node hashes of 64 bytes per flag bit cost well under a microsecond each
 	if budget := int64(50e6) + int64(len(flags))*8*20000; o.Nanos > budget && slowAgain(count, hashes, flags, budget) {
 		s.violate("C12:time", fmt.Sprintf("ExtractMatches took %d ns on %d flag bytes", o.Nanos, len(flags)), rp())
@@ -214,6 +234,83 @@ func monitor(s *sink, count uint32, hashes []pmtref.Hash, flags []byte) (implOut
 		}
 	}
 	return o, r
+}
+
+// ---------- two PartialBlocks alive at the same time ----------
+type rawMsg struct {
+	count  uint32
+	hashes []pmtref.Hash
+	flags  []byte
+	o      implOut // what an isolated run returned
+}
+
+func sameOut(a, b implOut) bool {
+	if a.Panic != b.Panic || a.OK != b.OK || a.Bad != b.Bad || a.Root != b.Root || len(a.Items) != len(b.Items) || len(a.Matches) != len(b.Matches) {
+		return false
+	}
+	for i := range a.Items {
+		if a.Items[i] != b.Items[i] || a.Matches[i] != b.Matches[i] {
+			return false
+		}
+	}
+	return true
+}
+
+// interleave creates the PartialBlocks of two messages first and extracts afterwards (first a, then b):
+// each must return what it returns on its own.  Extraction keeps its cursors in the PartialBlock, so
+// anything that is shared between two of them (or kept in the package) shows up here.
+func interleave(s *sink, a, b rawMsg) {
+	mk := func(m rawMsg) wire.MsgMerkleBlock {
+		ptrs := make([]*chainhash.Hash, len(m.hashes))
+		for i := range m.hashes {
+			h := chainhash.Hash(m.hashes[i])
+			ptrs[i] = &h
+		}
+		return wire.MsgMerkleBlock{Transactions: m.count, Hashes: ptrs, Flags: append([]byte(nil), m.flags...)}
+	}
+	get := func(pb *merkleblock.PartialBlock) (o implOut) {
+		defer func() {
+			if e := recover(); e != nil {
+				o.Panic = fmt.Sprint(e)
+			}
+		}()
+		root := pb.ExtractMatches()
+		o.Bad = pb.BadTree()
+		if root != nil {
+			o.OK = true
+			o.Root = pmtref.Hash(*root)
+			o.Items = append(o.Items, pb.GetItems()...)
+			for _, m := range pb.GetMatches() {
+				o.Matches = append(o.Matches, pmtref.Hash(*m))
+			}
+		}
+		return
+	}
+	var pa, pb2 *merkleblock.PartialBlock
+	if p, _ := vh.Catch(func() { pa = merkleblock.NewMerkleBlockFromMsg(mk(a)); pb2 = merkleblock.NewMerkleBlockFromMsg(mk(b)) }); p {
+		return // panics are reported by the isolated runs
+	}
+	oa := get(pa)
+	ob := get(pb2)
+	s.evals += 2
+	s.hist["interleaved"] += 2
+	for i, pair := range [][2]implOut{{oa, a.o}, {ob, b.o}} {
+		if pair[1].Panic == "" && !sameOut(pair[0], pair[1]) {
+			m := a
+			other := b
+			if i == 1 {
+				m, other = b, a
+			}
+			rp := replayOf(m.count, m.hashes, m.flags, pair[0], pmtref.Evaluate(m.count, m.hashes, m.flags, maxTxn))
+			rp["other_count"] = other.count
+			rp["other_hashes"] = hexHashes(other.hashes)
+			rp["other_flags"] = hex.EncodeToString(other.flags)
+			rp["alone_accepted"] = pair[1].OK
+			rp["alone_bad_tree"] = pair[1].Bad
+			rp["note"] = "both PartialBlocks are created (this message first when it is the first of the pair) before either is extracted"
+			s.violate("C12:isolation", "ExtractMatches returns something else when another PartialBlock exists than it returns on its own", rp)
+		}
+	}
 }
 
 // ---------- correspondence ----------
@@ -586,6 +683,7 @@ func mutationStream(r *vh.RNG, rounds int, maxN int, coqEvery int, coqMaxN int, 
 	defer func() { rep.Extra["mutation_seconds"] = time.Since(t0).Seconds() }()
 	s := newSink()
 	k := 0
+	var prev *rawMsg
 	for i := 0; i < rounds; i++ {
 		var n int
 		switch {
@@ -602,6 +700,14 @@ func mutationStream(r *vh.RNG, rounds int, maxN int, coqEvery int, coqMaxN int, 
 		flags := pmtref.Pack(t.Flags(nil))
 		for _, m := range mutate(r, uint32(n), hashes, flags) {
 			o, res := monitor(s, m.count, m.hashes, m.flags)
+			cur := rawMsg{m.count, m.hashes, m.flags, o}
+			if prev != nil && len(m.flags) <= 4096 {
+				interleave(s, *prev, cur)
+			}
+			if len(m.flags) <= 4096 && (m.name == "honest" || k%5 == 0) {
+				c := cur
+				prev = &c
+			}
 			if m.name == "honest" {
 				// the honest proof must verify to the textbook root and the chosen leaves
 				want := pmtref.MerkleRoot(leaves)
@@ -763,6 +869,133 @@ func skeletonFamily(r *vh.RNG, maxN int, coqPerN int) {
 	mergeSink(s, "skeleton")
 }
 
+// ---------- deep trees: proofs for a few positions of very large declared counts ----------
+// sparseTree is the canonical partial tree of a block of n transactions in which the (sorted)
+// positions are matched, with fresh random hashes for everything that is pruned: it exists for every
+// n without the n leaves having to exist.
+func sparseTree(r *vh.RNG, n uint64, h uint, pos uint64, want []uint64) *pmtref.Tree {
+	lo, hi := pos<<h, (pos+1)<<h
+	var below []uint64
+	for _, p := range want {
+		if p >= lo && p < hi {
+			below = append(below, p)
+		}
+	}
+	if h == 0 {
+		return &pmtref.Tree{Kind: 0, Matched: len(below) > 0, H: randHash(r)}
+	}
+	if len(below) == 0 {
+		return &pmtref.Tree{Kind: 1, H: randHash(r)}
+	}
+	l := sparseTree(r, n, h-1, 2*pos, below)
+	if 2*pos+1 < pmtref.Width(n, h-1) {
+		return &pmtref.Tree{Kind: 3, L: l, R: sparseTree(r, n, h-1, 2*pos+1, below)}
+	}
+	return &pmtref.Tree{Kind: 2, L: l}
+}
+
+// deepFamily: counts around 2^16, 2^17, 2^20, 2^21 and MaxTxnCount (heights 16..22), matched positions
+// at the far left, the far right (where single-child nodes pile up for counts of the form 2^k+1),
+// around 65535/65536 and at random; per tree: honest (must be accepted with exactly those positions),
+// equal children forced at every two-child node on the way down (must be rejected at every height),
+// the generic mutations (bit flips, dropped/extra hashes, altered counts, truncated/extended flags).
+func deepFamily(r *vh.RNG, perCount int, coqEvery int) {
+	t0 := time.Now()
+	defer func() { rep.Extra["deep_seconds"] = time.Since(t0).Seconds() }()
+	s := newSink()
+	counts := []uint64{65535, 65536, 65537, 1<<17 - 1, 1<<17 + 1, 1 << 20, 1<<20 + 1, 1<<21 - 1, 1 << 21, 1<<21 + 1, uint64(maxTxn) - 1, uint64(maxTxn)}
+	k := 0
+	for _, n := range counts {
+		if n == 0 || n > uint64(maxTxn) {
+			continue
+		}
+		H := pmtref.Height(n)
+		var sets [][]uint64
+		for _, p := range []uint64{0, 1, n - 1, n - 2, 65535, 65536, 65537, n / 2} {
+			if p < n {
+				sets = append(sets, []uint64{p})
+			}
+		}
+		sets = append(sets, []uint64{0, n - 1}, []uint64{n - 2, n - 1}, []uint64{65535, 65536})
+		for i := 0; i < perCount; i++ {
+			a, b, c := uint64(r.Intn(int(n))), uint64(r.Intn(int(n))), uint64(r.Intn(int(n)))
+			sets = append(sets, []uint64{a}, []uint64{a, b, c})
+		}
+		for _, want := range sets {
+			ok := true
+			for _, p := range want {
+				ok = ok && p < n
+			}
+			if !ok {
+				continue
+			}
+			sort.Slice(want, func(i, j int) bool { return want[i] < want[j] })
+			var uniq []uint64
+			for i, p := range want {
+				if i == 0 || p != want[i-1] {
+					uniq = append(uniq, p)
+				}
+			}
+			t := sparseTree(r, n, H, 0, uniq)
+			hashes, flags := t.Hashes(nil), pmtref.Pack(t.Flags(nil))
+			o, res := monitor(s, uint32(n), hashes, flags)
+			s.hist["deep:honest"]++
+			s.hist[fmt.Sprintf("deep:height_%d", H)]++
+			okm := res.OK && o.OK && len(o.Items) == len(uniq)
+			for i := 0; okm && i < len(uniq); i++ {
+				okm = uint64(o.Items[i]) == uniq[i]
+			}
+			if !okm {
+				if !res.OK {
+					s.violate("C12:harness:deep_expectation", "deep family: the reference rejects a tree built by construction", replayOf(uint32(n), hashes, flags, o, res))
+				} else {
+					s.violate("C12:complete:honest_proof", "a well-formed proof for a few positions of a very large block is not accepted with exactly those positions", replayOf(uint32(n), hashes, flags, o, res))
+				}
+			}
+			k++
+			if coqEvery > 0 && k%coqEvery == 0 {
+				addCase(uint32(n), hashes, flags, o, true, "deep:honest")
+			}
+			// equal children at every two-child node, each side that carries a hash
+			var nodes []*pmtref.Tree
+			var hs []uint
+			twoChildNodes(t, H, &nodes, &hs)
+			for j, nd := range nodes {
+				for side := 0; side < 2; side++ {
+					a, b := nd.L, nd.R
+					if side == 1 {
+						a, b = nd.R, nd.L
+					}
+					if a.Kind > 1 {
+						continue
+					}
+					saved := a.H
+					a.H = b.Root()
+					hh := t.Hashes(nil)
+					o2, res2 := monitor(s, uint32(n), hh, flags)
+					s.hist["deep:equal_children"]++
+					if res2.OK || res2.Reason != "equal_children" {
+						s.violate("C12:harness:deep_expectation", "deep family: the reference does not report equal children", replayOf(uint32(n), hh, flags, o2, res2))
+					}
+					if coqEvery > 0 && (k+j)%(4*coqEvery) == 0 {
+						addCase(uint32(n), hh, flags, o2, true, fmt.Sprintf("deep:equal_children_h%d", hs[j]))
+					}
+					a.H = saved
+				}
+			}
+			for _, m := range mutate(r, uint32(n), hashes, flags) {
+				o3, _ := monitor(s, m.count, m.hashes, m.flags)
+				s.hist["deep:"+m.name]++
+				k++
+				if coqEvery > 0 && k%(3*coqEvery) == 0 {
+					addCase(m.count, m.hashes, m.flags, o3, true, "deep:"+m.name)
+				}
+			}
+		}
+	}
+	mergeSink(s, "deep")
+}
+
 // ---------- fixed edge cases ----------
 func edgeCases(r *vh.RNG) {
 	s := newSink()
@@ -826,24 +1059,39 @@ func nodeHashCases(r *vh.RNG, n int) {
 func replay(path string) {
 	var rp struct {
 		Input struct {
-			Count  uint32   `json:"count"`
-			Hashes []string `json:"hashes"`
-			Flags  string   `json:"flags"`
+			Count       uint32   `json:"count"`
+			Hashes      []string `json:"hashes"`
+			Flags       string   `json:"flags"`
+			OtherCount  *uint32  `json:"other_count"`
+			OtherHashes []string `json:"other_hashes"`
+			OtherFlags  string   `json:"other_flags"`
 		} `json:"input"`
 	}
 	b, err := os.ReadFile(path)
 	vh.Must(err)
 	vh.Must(json.Unmarshal(b, &rp))
-	var hs []pmtref.Hash
-	for _, x := range rp.Input.Hashes {
-		var h pmtref.Hash
-		d, _ := hex.DecodeString(x)
-		copy(h[:], d)
-		hs = append(hs, h)
+	dec := func(xs []string) []pmtref.Hash {
+		var hs []pmtref.Hash
+		for _, x := range xs {
+			var h pmtref.Hash
+			d, _ := hex.DecodeString(x)
+			copy(h[:], d)
+			hs = append(hs, h)
+		}
+		return hs
 	}
+	hs := dec(rp.Input.Hashes)
 	fl, _ := hex.DecodeString(rp.Input.Flags)
 	s := newSink()
-	monitor(s, rp.Input.Count, hs, fl)
+	o, _ := monitor(s, rp.Input.Count, hs, fl)
+	if rp.Input.OtherCount != nil {
+		ohs := dec(rp.Input.OtherHashes)
+		ofl, _ := hex.DecodeString(rp.Input.OtherFlags)
+		oo, _ := monitor(s, *rp.Input.OtherCount, ohs, ofl)
+		a, b := rawMsg{rp.Input.Count, hs, fl, o}, rawMsg{*rp.Input.OtherCount, ohs, ofl, oo}
+		interleave(s, a, b)
+		interleave(s, b, a)
+	}
 	mergeSink(s, "replay")
 }
 
@@ -902,23 +1150,27 @@ func main() {
 		exhaustive("scope{0,A,H(A,B)}", []pmtref.Hash{Z, A, AB}, 7, upTo, second, 0, rng.Fork("ex2"))
 		skeletonFamily(rng.Fork("skel"), 12, 0)
 		mutationStream(rng.Fork("mut"), 4000, 5000, 1<<30, 0, 0)
+		deepFamily(rng.Fork("deep"), 40, 0)
 	case cfg.Thorough():
 		// count <= 7, all hash lists over three letters, all flag strings of <= 2 bytes
 		exhaustive("scope{A,B,H(A,A)}", []pmtref.Hash{A, B, AA}, 7, upTo, allBytes, 3, rng.Fork("ex1"))
 		exhaustive("scope{0,A,H(A,B)}", []pmtref.Hash{Z, A, AB}, 4, upTo, allBytes, 1, rng.Fork("ex2"))
 		skeletonFamily(rng.Fork("skel"), 10, 6)
 		mutationStream(rng.Fork("mut"), 3000, 5000, 151, 4, 120)
+		deepFamily(rng.Fork("deep"), 20, 97)
 	default:
 		// quick: the same scope with the second flag byte restricted to 8 values (all 2-byte strings in the thorough tier)
 		second := []int{0, 1, 3, 0x15, 0x2a, 0x7f, 0x80, 0xff}
 		exhaustive("scope{A,B,H(A,A)}", []pmtref.Hash{A, B, AA}, 7, upTo, second, 1, rng.Fork("ex1"))
 		skeletonFamily(rng.Fork("skel"), 9, 3)
 		mutationStream(rng.Fork("mut"), 600, 3000, 67, 4, 100)
+		deepFamily(rng.Fork("deep"), 4, 61)
 	}
 	rep.Extra["exhaustive_and_mutation_seconds"] = time.Since(t0).Seconds()
 	rep.Sample(map[string]interface{}{"family": "edge", "what": "CVE-2012-2459 shapes, count 0 / MaxTxnCount / MaxTxnCount+1 / 2^32-1, megabyte flag strings"}, 4)
 	rep.Sample(map[string]interface{}{"family": "exhaustive", "what": "count <= 7 x hash lists (<= count+1) over {A,B,H(A,A)} x flag strings <= 2 bytes"}, 4)
 	rep.Sample(map[string]interface{}{"family": "skeleton", "what": "every partial-tree shape for n <= 9 (12 in search): honest, padding bits set, 1-2 extra flag bytes, dropped byte/hash, extra hash, equal children forced at every two-child node of every height"}, 4)
+	rep.Sample(map[string]interface{}{"family": "deep", "what": "proofs for 1-3 positions (far left, far right, around 65535/65536, random) of blocks of 65535..MaxTxnCount transactions (heights 16..22): honest, equal children forced at every height on the way down, generic mutations; interleaved: two PartialBlocks created before either is extracted"}, 4)
 	rep.Sample(map[string]interface{}{"family": "mutation", "what": "honest proofs (reference builder) with bit flips, dropped/duplicated/reordered/corrupted hashes, altered count, truncated/extended flags"}, 4)
 	if !cfg.Search {
 		_, err := cases.Flush()
